@@ -28,7 +28,7 @@ ASSUMPTIONS = [
     "For BAM the written bytes are therefore compared only when both modes wrote; a write that raises on the parsed side is the tolerant class 'bam-write-unsupported'.",
 ]
 REQUIRED_CLASSES = ["chunked", "whole", "access-index-replace-concat-write", "concat-second-operand-replaced", "concat-after-access-on-first",
-                    "setattr", "int-index", "typed-info", "bam", "bam-write-selection", "bam-observe-after-write", "bam-get-then-write"]
+                    "setattr", "int-index", "typed-info", "bam", "bam-write-selection", "bam-observe-after-write", "bam-get-then-write", "bam-same-length-permutation"]
 BOUNDS = {"quick": "300 programs of up to 10 steps for each of 8 text format variants, files of up to 8 records; 400 BAM programs on files of up to 6 records",
           "thorough": "8000 programs of up to 25 steps per text variant, files of up to 25 records; 9600 BAM programs on files of up to 16 records"}
 BUDGET_S = {"quick": 200, "thorough": 1500}
